@@ -126,6 +126,11 @@ func (j *DefaultJWKSProvider) fetchDynamic(ctx context.Context, config *oidcv1.O
 
 	jwks, err := j.cache.Get(ctx, jwksConfig.JwksUri)
 	if err != nil {
+		// The cache only returns an error while it has never fetched the JWKS successfully. It keeps
+		// the entry marked as fetched nevertheless and would not try again before the next periodic
+		// refresh, failing every request until then. Forget the entry so that the next request
+		// registers it again and starts with a fresh fetch.
+		_ = j.cache.Unregister(jwksConfig.JwksUri)
 		return nil, fmt.Errorf("%w: %v", ErrJWKSFetch, err)
 	}
 	return jwks, nil
